@@ -58,7 +58,9 @@ def loaded_times_cases():
                 fsteps = np.array([int(f["data"][q].attrs["step"]) for q in keys])
             n += 1
             case = dict(save_every=k, adaptive=adaptive, skip_time=skip, frames=len(keys))
-            for nm_, s_ in (("returned", sol), ("loaded", back)):
+            mid = tdgl.Solution.from_hdf5(sol.path, solve_step=1) if len(keys) > 2 else back
+            early = tdgl.Solution.from_hdf5(sol.path, solve_step=0)
+            for nm_, s_ in (("returned", sol), ("loaded", back), ("loaded at frame 1", mid), ("loaded at frame 0", early)):
                 t_ = np.asarray(s_.times)
                 if len(t_) != len(ftimes) or not np.allclose(t_, ftimes, rtol=1e-12, atol=1e-15):
                     bad.append(dict(case, what=f"times of the {nm_} solution are not the frame times", n_times=len(t_), last_time=float(t_[-1]) if len(t_) else None,
